@@ -347,7 +347,10 @@ PROPS["C20"] = dict(
     ],
 )
 
-U21 = {r"select_in_word": 66}
+def u21(n):
+    """<= n bytes of text: at most n markers, so the index's own CTZ select loop needs n+1 iterations (checked by its unwinding assertion)."""
+    return {r"select_in_word": n + 2, r"binary_search_by|partition_point": 4, r"DsvRow.*3get": n + 3, r"c21_|split|bytes_eq|ends_with": n + 4,
+            r"build_index|build_rank": n + 2}
 
 PROPS["C21"] = dict(
     module="c21",
@@ -356,22 +359,22 @@ PROPS["C21"] = dict(
     outside="texts longer than 6 bytes; Dsv (owned) wrapper and the SIMD-built index (C20 shows every engine builds the same index words)",
     assumptions=["index built by the scalar builder; in-word select of the DSV index is its own CTZ loop"],
     harnesses=[
-        H("c21_rows_fields_len1", timeout=600, unwindset=U21, bounds="all 1-byte texts"),
-        H("c21_rows_fields_len2", timeout=600, unwindset=U21, bounds="all 2-byte texts"),
-        H("c21_rows_fields_len3", timeout=900, unwindset=U21, bounds="all 3-byte texts"),
-        H("c21_rows_fields_len4", timeout=1800, unwindset=U21, bounds="all 4-byte texts"),
-        H("c21_rows_fields_len5", timeout=2700, unwindset=U21, tier="thorough", bounds="all 5-byte texts"),
-        H("c21_rows_fields_len6", timeout=2700, unwindset=U21, tier="thorough", bounds="all 6-byte texts"),
-        H("c21_trailing_delimiter_len2", kind="finding", finding="C21-trailing-empty-field", timeout=600, unwindset=U21,
+        H("c21_rows_fields_len1", timeout=600, unwindset=u21(1), bounds="all 1-byte texts"),
+        H("c21_rows_fields_len2", timeout=600, unwindset=u21(2), bounds="all 2-byte texts"),
+        H("c21_rows_fields_len3", timeout=900, unwindset=u21(3), bounds="all 3-byte texts"),
+        H("c21_rows_fields_len4", timeout=1800, unwindset=u21(4), bounds="all 4-byte texts"),
+        H("c21_rows_fields_len5", timeout=2700, unwindset=u21(5), tier="thorough", bounds="all 5-byte texts"),
+        H("c21_rows_fields_len6", timeout=2700, unwindset=u21(6), tier="thorough", bounds="all 6-byte texts"),
+        H("c21_trailing_delimiter_len2", kind="finding", finding="C21-trailing-empty-field", timeout=600, unwindset=u21(2),
           bounds="2-byte texts whose last byte is an unquoted delimiter"),
-        H("c21_trailing_delimiter_len4", kind="finding", finding="C21-trailing-empty-field", timeout=1800, unwindset=U21,
+        H("c21_trailing_delimiter_len4", kind="finding", finding="C21-trailing-empty-field", timeout=1800, unwindset=u21(4),
           bounds="4-byte texts whose last byte is an unquoted delimiter"),
-        H("c21_append_separator_len3", timeout=900, unwindset=U21, bounds="3-byte texts + separator"),
-        H("c21_append_separator_len4", timeout=1800, unwindset=U21, bounds="4-byte texts + separator"),
-        H("c21_append_separator_len5", timeout=2700, unwindset=U21, tier="thorough", bounds="5-byte texts + separator"),
-        H("c21_append_separator_trailing_delimiter_len3", kind="finding", finding="C21-trailing-empty-field", timeout=900, unwindset=U21,
+        H("c21_append_separator_len3", timeout=900, unwindset=u21(4), bounds="3-byte texts + separator"),
+        H("c21_append_separator_len4", timeout=1800, unwindset=u21(5), bounds="4-byte texts + separator"),
+        H("c21_append_separator_len5", timeout=2700, unwindset=u21(6), tier="thorough", bounds="5-byte texts + separator"),
+        H("c21_append_separator_trailing_delimiter_len3", kind="finding", finding="C21-trailing-empty-field", timeout=900, unwindset=u21(4),
           bounds="3-byte texts ending in an unquoted delimiter + separator"),
-        H("c21_witness_must_fail", kind="witness", tier="thorough", timeout=600, unwindset=U21),
+        H("c21_witness_must_fail", kind="witness", tier="thorough", timeout=600, unwindset=u21(3)),
     ],
 )
 
